@@ -676,6 +676,31 @@ func (w *WAL) Sync() error {
 	return w.syncLocked()
 }
 
+// SyncForRotation flushes and syncs everything appended so far. Unlike Sync it
+// also works on a WAL that is already marked as rotating: such a WAL accepts no
+// further appends, so once this returns its file is complete on disk.
+func (w *WAL) SyncForRotation() error {
+	w.mu.Lock()
+	defer w.mu.Unlock()
+
+	if atomic.LoadInt32(&w.status) == WALStatusClosed {
+		return ErrWALClosed
+	}
+
+	if err := w.writer.Flush(); err != nil {
+		return fmt.Errorf("failed to flush WAL buffer: %w", err)
+	}
+
+	if err := w.file.Sync(); err != nil {
+		return fmt.Errorf("failed to sync WAL file: %w", err)
+	}
+
+	w.lastSync = time.Now()
+	w.batchByteSize = 0
+
+	return nil
+}
+
 // AppendBatch adds a batch of entries to the WAL atomically
 func (w *WAL) AppendBatch(entries []*Entry) (uint64, error) {
 	w.mu.Lock()
